@@ -107,15 +107,6 @@ func runC10Inject(run *ev.Run, idx int, seed int64) {
 	c.Idle = time.Hour
 	m := mesh.New(c, seed)
 	defer m.Shutdown()
-	n := 3 + rng.Intn(3)
-	ids := []string{}
-	for i := 0; i < n; i++ {
-		ids = append(ids, fmt.Sprintf("i%d", i))
-		m.AddNode(ids[i])
-		if i > 0 {
-			m.Connect(ids[i-1], ids[i], 1, false)
-		}
-	}
 	type ev1 struct {
 		seq      uint64
 		from, to string
@@ -137,6 +128,15 @@ func runC10Inject(run *ev.Run, idx int, seed int64) {
 		mu.Lock()
 		events = append(events, ev1{e.Seq, e.From, e.To, e.Dir, c10PacketKey(d), d.TTL})
 		mu.Unlock()
+	}
+	n := 3 + rng.Intn(3)
+	ids := []string{}
+	for i := 0; i < n; i++ {
+		ids = append(ids, fmt.Sprintf("i%d", i))
+		m.AddNode(ids[i])
+		if i > 0 {
+			m.Connect(ids[i-1], ids[i], 1, false)
+		}
 	}
 	entry := m.Node(ids[0]).Inst()
 	x := memnet.NewScripted("xi")
